@@ -13,7 +13,9 @@ import (
 	"context"
 	"encoding/json"
 	"fmt"
+	"math/big"
 	"os"
+	"regexp"
 	"strconv"
 	"strings"
 	"sync"
@@ -138,15 +140,26 @@ func vfC15RunBw(c g.Sink, s vfC15BwScenario) {
 			return
 		}
 	}
+	milli, unit, wellFormed := vfC15WellFormed(v)
 	n, err := parseBandwidth(v)
 	if err != nil {
 		c.Label("result:rejected")
 		if n != 0 {
 			c.Fatalf("parseBandwidth(%q) = %d with error %v", v, n, err)
 		}
+		if wellFormed {
+			c.Fatalf("well-formed bandwidth %q rejected: %v", v, err)
+		}
 		return
 	}
 	c.Label("result:accepted")
+	if wellFormed {
+		c.Label("well-formed")
+		want, tol := vfC15Exact(milli, unit)
+		if diff := new(big.Int).Sub(new(big.Int).SetUint64(n), want); diff.CmpAbs(tol) > 0 {
+			c.Fatalf("parseBandwidth(%q) = %d, want floor(n x 1024^%d) = %s", v, n, unit, want)
+		}
+	}
 }
 
 func TestVerifC15Bandwidth(t *testing.T) { vt.Run(t, vfC15GenBw, g.NoPanic(g.Adapt(vfC15RunBw))) }
@@ -162,11 +175,58 @@ type vfC15ScaleScenario struct {
 }
 
 func vfC15GenScale(t *rapid.T) vfC15ScaleScenario {
-	mg := rapid.OneOf(rapid.Int64Range(1, 3000), rapid.Int64Range(1, 1000000), rapid.Int64Range(1, 1000000000))
+	// milli = n*1000. Classes: n < 1; small n with 1, 2 or 3 decimals; integral n; anything
+	frac := func(step int64) *rapid.Generator[int64] { // n with exactly-ish 3/2/1 decimals (step 1/10/100)
+		return rapid.Map(rapid.Int64Range(1, 4000000/step), func(k int64) int64 { return k * step })
+	}
+	mg := rapid.OneOf(rapid.Int64Range(1, 999), frac(1), frac(10), frac(100),
+		rapid.Map(rapid.Int64Range(1, 1000000), func(k int64) int64 { return k * 1000 }),
+		rapid.Int64Range(1, 3000), rapid.Int64Range(1, 1000000), rapid.Int64Range(1, 1000000000))
 	return vfC15ScaleScenario{
 		MilliA: mg.Draw(t, "a"), MilliB: mg.Draw(t, "b"),
 		FormA: rapid.IntRange(0, 5).Draw(t, "fa"), FormB: rapid.IntRange(0, 5).Draw(t, "fb"),
 	}
+}
+
+// vfC15Exact: floor(milli/1000 * 1024^k) in exact integer arithmetic, and the tolerance the
+// parser's float64 arithmetic is allowed. The parser may round n to the nearest double
+// (relative error 2^-53) before the exact power-of-two scaling. The exact product is an
+// integer or at least 1/125 away from one, so below 2^46 rounding cannot move the floor
+// (tolerance 0); above, the result may be off by value*2^-52.
+func vfC15Exact(milli int64, k int) (want, tol *big.Int) {
+	v := new(big.Int).Lsh(big.NewInt(milli), uint(10*k))
+	want = v.Div(v, big.NewInt(1000))
+	tol = new(big.Int)
+	if want.BitLen() > 46 {
+		tol.Rsh(want, 52).Add(tol, big.NewInt(1))
+	}
+	return want, tol
+}
+
+var vfC15WellFormedRE = regexp.MustCompile(`^([0-9]{1,7})(?:\.([0-9]{1,3}))?(|B|K|KB|KiB|M|MB|MiB|G|GB|GiB|T|TB|TiB)$`)
+
+// vfC15WellFormed recognises the well-formed values of the statement (n in (0, 10^6] with
+// at most three decimals, canonical unit spelling) in an arbitrary string.
+func vfC15WellFormed(s string) (milli int64, unit int, ok bool) {
+	m := vfC15WellFormedRE.FindStringSubmatch(s)
+	if m == nil {
+		return 0, 0, false
+	}
+	whole, _ := strconv.ParseInt(m[1], 10, 64)
+	fr := (m[2] + "000")[:3]
+	f, _ := strconv.ParseInt(fr, 10, 64)
+	milli = whole*1000 + f
+	if milli <= 0 || milli > 1000000000 {
+		return 0, 0, false
+	}
+	for i, cls := range vfC15Units {
+		for _, u := range cls {
+			if u == m[3] {
+				return milli, i, true
+			}
+		}
+	}
+	return 0, 0, false
 }
 
 func vfC15RunScale(c g.Sink, s vfC15ScaleScenario) {
@@ -218,6 +278,38 @@ func vfC15RunScale(c g.Sink, s vfC15ScaleScenario) {
 	}
 	va := values(s.MilliA, s.FormA)
 	vb := values(s.MilliB, s.FormB)
+	// absolute value: value(n, unit k) = floor(n * 1024^k), the truncation applying to the
+	// RESULT. (The step check above compares with the already truncated lower unit and is
+	// satisfied by an implementation that truncates n before scaling.)
+	for _, x := range []struct {
+		milli int64
+		form  int
+		got   []uint64
+	}{{s.MilliA, s.FormA, va}, {s.MilliB, s.FormB, vb}} {
+		for k, got := range x.got {
+			want, tol := vfC15Exact(x.milli, k)
+			if diff := new(big.Int).Sub(new(big.Int).SetUint64(got), want); diff.CmpAbs(tol) > 0 {
+				c.Fatalf("%s%s = %d, want floor(%s x 1024^%d) = %s", vfC15Milli(x.milli, x.form), vfC15Units[k][0], got, vfC15Milli(x.milli, x.form), k, want)
+			}
+			if got == 0 && want.Sign() > 0 && tol.Sign() == 0 {
+				c.Fatalf("%s%s = 0: a bandwidth of at least one byte became \"no limit\"", vfC15Milli(x.milli, x.form), vfC15Units[k][0])
+			}
+		}
+	}
+	// ordering across units: a larger amount never parses to a smaller value
+	for i := range va {
+		for j := range vb {
+			ea, ta := vfC15Exact(s.MilliA, i)
+			eb, tb := vfC15Exact(s.MilliB, j)
+			if ta.Sign() != 0 || tb.Sign() != 0 {
+				continue
+			}
+			if (ea.Cmp(eb) <= 0 && va[i] > vb[j]) || (ea.Cmp(eb) >= 0 && va[i] < vb[j]) {
+				c.Fatalf("order lost: %s%s -> %d but %s%s -> %d", vfC15Milli(s.MilliA, s.FormA), vfC15Units[i][0], va[i],
+					vfC15Milli(s.MilliB, s.FormB), vfC15Units[j][0], vb[j])
+			}
+		}
+	}
 	for i := range va {
 		switch {
 		case s.MilliA <= s.MilliB && va[i] > vb[i], s.MilliA >= s.MilliB && va[i] < vb[i]:
